@@ -4,7 +4,7 @@
    The tie  text -> tokens -> these trees  is the tokenizer's and parser's (C11, C09) and is exercised on the
    real tokenizer/parser/evaluator by the C19 correspondence stream, which assembles every printed text. *)
 From Coq Require Import ZArith NArith List String.
-From Trion Require Import Text.Types Expr.EvalModel Arm.Instr Arm.EncodeModel Arm.DisplayModel Arm.DisplayArgs Arm.AsmStmtModel Arm.AsmStmtProofs Arm.AsmEvalLink.
+From Trion Require Import Text.Types Expr.EvalModel Arm.Instr Arm.EncodeModel Arm.DisplayModel Arm.DisplayArgs Arm.AsmStmtModel Arm.AsmStmtProofs Arm.AsmEvalLink Arm.DecodeModel Arm.DecProofs Arm.TextSweep Bin.TextRoundtrip.
 Import ListNotations.
 Open Scope N_scope.
 
@@ -28,6 +28,17 @@ Theorem C19_statement_roundtrip_eval : forall lk local i addr hws,
   wf_instr i -> enc i = EncOk hws -> addr < 4294967296 -> target_in_space i addr = true ->
   conv_val (assemble_stmt (ev_of lk) local addr (mnemonic i) (display_args i addr)) = Some i.
 Proof. exact stmt_roundtrip_eval. Qed.
+
+(* down to the printed characters: for EVERY decodable 16-bit pattern whose instruction has no PC-relative operand,
+   at every address, the printed text is tokenized (TokenModel), parsed (ParseModel) to one instruction statement,
+   its mnemonic found and its operands converted, yielding exactly the decoded instruction (kernel sweep over all
+   2^16 halfwords for the text -> statement step).  PC-relative texts mention an address-dependent label: they are
+   covered by C19_statement_roundtrip_eval at the parsed level and by the correspondence stream on the real code. *)
+Theorem C19_text_roundtrip16 : forall lk local bs i addr,
+  (forall t, t < 4294967296 -> lk (label t) = Found (Z.of_N t)) ->
+  bytes_ok bs -> dec bs = DecOk 2 i -> pcrel i = false -> addr < 4294967296 ->
+  asm_text lk local addr (display i addr) = Some i.
+Proof. exact text_to_instr16. Qed.
 
 (* the printed label is the architectural target *)
 Theorem C19_label_is_target : forall i addr t, pc_target i addr = Some t ->
